@@ -726,6 +726,12 @@ func parseShortTermRPS(r *bits.EBSPReader, idx, numSTRefPicSets byte, sps *SPS) 
 		deltaRps := (1 - (deltaRpsSign << 1)) * (absDeltaRpsMinus1 + 1)
 		ref := sps.ShortTermRefPicSets[idx-byte(deltaIdx)]
 		numDeltaPocs := int(ref.NumDeltaPocs)
+		if numDeltaPocs != len(ref.DeltaPocS0)+len(ref.DeltaPocS1) || numDeltaPocs > maxSTRefPics {
+			// The reference set is broken (its own parsing failed) or too big to predict from
+			r.SetError(fmt.Errorf("reference short-term RPS has %d pictures but announces %d",
+				len(ref.DeltaPocS0)+len(ref.DeltaPocS1), numDeltaPocs))
+			return stps
+		}
 		usedByCurrPicFlag := make([]bool, numDeltaPocs+1)
 		useDeltaFlag := make([]bool, numDeltaPocs+1)
 		for j := 0; j <= numDeltaPocs; j++ {
